@@ -83,10 +83,15 @@ def facts_dir(features="", repo=REPO):
         # keep the cache small: drop entries unused for an hour beyond the 8 newest (another check
         # process may be reading a recent one)
         now = time.time()
-        ents = sorted((e for e in os.listdir(base) if not e.startswith(".")),
-                      key=lambda e: os.path.getmtime(os.path.join(base, e)))
+
+        def mtime(e):
+            try:
+                return os.path.getmtime(os.path.join(base, e))
+            except OSError:
+                return now          # removed meanwhile by another run's pruning
+        ents = sorted((e for e in os.listdir(base) if not e.startswith(".")), key=mtime)
         for e in ents[:-8]:
-            if now - os.path.getmtime(os.path.join(base, e)) > 3600:
+            if now - mtime(e) > 3600:
                 subprocess.run(["rm", "-rf", os.path.join(base, e)])
         return d, False
     finally:
@@ -835,9 +840,13 @@ class FnView:
         return v or f
 
     def __getitem__(self, k):
+        if not self.prog.inline_mode:
+            self.prog.requested.add(k)        # looked up by a rule on the plain evaluation: an atom of this run's vocabulary
         return self._v(self.raw[k])
 
     def get(self, k, d=None):
+        if not self.prog.inline_mode and k in self.raw:
+            self.prog.requested.add(k)
         f = self.raw.get(k)
         return self._v(f) if f is not None else d
 
@@ -880,6 +889,7 @@ class Program:
         self._resolve_named_consts()
         self.inline_mode = False
         self.raw_fns = self.fns
+        self.requested = set()
         self.fns = FnView(self, self.raw_fns)
         self._callers = None
         self._edges = None
@@ -1098,7 +1108,7 @@ class Program:
         from . import inline
         h = self.raw_fns.get(fid)
         ok = False
-        if h is not None and h.kind != "closure" and len(h.blocks) <= inline.MAX_CALLEE_BLOCKS and h.name not in inline.named_by_rules():
+        if h is not None and h.kind != "closure" and len(h.blocks) <= inline.MAX_CALLEE_BLOCKS and not inline.is_atom(self, h):
             sites = self.call_sites_into(fid)
             ok = bool(sites)
             for g, c in sites:
